@@ -1,7 +1,7 @@
 """C10 SMC particles are properly weighted (structural clauses, DESIGN §4-C10)."""
 from . import lints, infer
 
-EXPLANATION = ("Per-particle closures of init/change/extend/rejuvenate are summarised symbolically (under modular_vmap) and their log-weight "
+EXPLANATION = ("Per-particle closures of init/extend/rejuvenate are summarised symbolically (under modular_vmap) and their log-weight "
                "polynomials compared with the proper-weighting forms; collection accessors and the rejuvenation_smc pipeline roles are checked.")
 
 def trc(ctx):
@@ -9,6 +9,28 @@ def trc(ctx):
                          "genjax.inference.smc.resample", "genjax.inference.smc.rejuvenation_smc", "genjax.inference.smc.ParticleCollection"])
 
 
-RULES = [trc, infer.particle_collection_helper, infer.smc_init_rule, infer.smc_change_rule, infer.smc_extend_rule, infer.smc_rejuvenate_rule,
+def change_observation(ctx):
+    """`change` is not part of C10's statement (init, extend, rejuvenate; resample is C12) and, as written, is not a properly weighted move when the two targets
+    differ (it adds the new model's full generate weight without subtracting the old model's density; wave-4 reproducer: log marginal −3.25 vs exact −1.35).  Its
+    form is therefore reported as an observation, never as a violation: a rule armed on it would encode the code, not the property."""
+    class _Probe:
+        def __init__(self, ctx):
+            self.ctx, self.msgs = ctx, []
+        def __getattr__(self, n):
+            return getattr(self.ctx, n)
+        def bad(self, rule, construct, key, detail, loc=None):
+            self.msgs.append(key)
+        def ok(self, *a, **k):
+            pass
+    pr = _Probe(ctx)
+    try:
+        infer.smc_change_rule(pr)
+        ctx.observe("ALG-smc", "smc.change", "new weight = old weight + generate weight of the new target (as documented; not armed)" if not pr.msgs
+                    else f"form differs from the documented one: {pr.msgs[:2]} (not armed)")
+    except Exception as e:   # noqa: BLE001 — an observation must never decide the check
+        ctx.observe("ALG-smc", "smc.change", f"not summarised ({type(e).__name__}); not armed")
+
+
+RULES = [trc, infer.particle_collection_helper, infer.smc_init_rule, change_observation, infer.smc_extend_rule, infer.smc_rejuvenate_rule,
          infer.smc_accessors_rule, infer.smc_resample_rule, infer.rejuvenation_smc_rule]
 FLOOR = 8
